@@ -113,10 +113,37 @@ def unit_lemmas():
     return recs
 
 
+def unit_anysize(model, n, gamma_mode):
+    """zero-sum of the precision-weighted mu change for teams of every size (team totals by linearity)"""
+    from . import anysize
+    return anysize.c07(model, n, gamma_mode)
+
+
+def unit_lean():
+    """machine-check A-sum and the inductions behind the fold / collect rules against Mathlib"""
+    import os
+    import subprocess
+    from .. import VERIF
+    t0 = time.time()
+    path = os.path.join(VERIF, "lemmas", "Sums.lean")
+    try:
+        p = subprocess.run(["lake", "env", "lean", path], cwd="/opt/veriftools/mathlib4", capture_output=True, text=True, timeout=1500)
+        ok = p.returncode == 0 and "error" not in (p.stdout + p.stderr).lower() and "sorry" not in (p.stdout + p.stderr).lower()
+        note = (p.stdout + p.stderr)[-300:]
+    except Exception as e:  # noqa: BLE001
+        ok, note = False, repr(e)
+    return [driver.rec("C07/lemmas/A-sum-and-fold-rule-checked-by-Lean-Mathlib", "discharged" if ok else "open", "lean4+mathlib", time.time() - t0,
+                       kind="vacuity", fn="lemmas/Sums.lean", note=note)]
+
+
 def units(tier):
-    us = [("unit_lemmas", ())]
+    us = [("unit_lemmas", ())] + ([("unit_lean", ())] if tier == "thorough" else [])
     nmax = 4 if tier == "quick" else 8
     for m in extract.MODELS:
+        for n in range(2, (4 if tier == "quick" else 7) + 1):
+            us.append(("unit_anysize", (m, n, "default")))
+            if n <= 4:
+                us.append(("unit_anysize", (m, n, "custom")))
         for n in range(2, nmax + 1):
             svs = size_vectors(n, tier)
             for sizes in (svs if n <= 3 or tier == "thorough" else svs[:2]):
@@ -124,7 +151,7 @@ def units(tier):
             us.append(("unit_compute", (m, tuple([1] * n) if n > 2 else (2, 1), "custom")))
         for sizes in ((1, 1), (2, 2), (1, 1, 1)):
             us.append(("unit_compute", (m, sizes, "default", True)))
-    us.sort(key=lambda u: -(sum(u[1][1]) * 2 ** len(u[1][1])) if u[0] != "unit_lemmas" else 0)
+    us.sort(key=lambda u: (-(sum(u[1][1]) * 2 ** len(u[1][1])) if u[0] not in ("unit_lemmas", "unit_anysize", "unit_lean") else (-(2 ** u[1][1]) if u[0] == "unit_anysize" else (-10 ** 9 if u[0] == "unit_lean" else 0))))
     return us
 
 
@@ -141,9 +168,10 @@ def main(tier, seed):
             "A-exp used by the normaliser (exp(-a) exp(a) = 1); denominators non-zero (C08)",
             "Thurstone-Mosteller: contract clause |vt(x,t) + vt(-x,t)| <= 2t of vt (verified in C17) and V evaluated at the same canonical argument for winner and loser",
             "team variance = sum of member sigma^2 as passed to _compute (i.e. after tau inflation by rate)",
+            __import__("pyvc.props.anysize", fromlist=["A_SUM"]).A_SUM,
             "shape-bounded: all tie patterns, n = 2..4 quick / 2..8 thorough; team-size vectors in coverage.shapes",
         ],
         explanation=("The precision-weighted total T of the mu changes is built from the result terms of the real _compute and reduced to its exact normal form: for Plackett-Luce and both Bradley-Terry models it is the zero polynomial for every listed shape and tie pattern; "
                      "for the Thurstone-Mosteller models it is exactly the sum over tied pairs of (vt(x,t)+vt(-x,t))/c_iq with x_qi = -x_iq and t = kappa/c_iq proved, so the vt contract bounds it by sum 2 kappa/c_iq^2 (generic lemmas by z3). The equal-variance corollary is a one-step lemma."),
-        shapes=sorted({str(u[1][1]) for u in units(tier) if u[0] != "unit_lemmas"}),
+        shapes=sorted({(str(u[1][1]) if u[0] != "unit_anysize" else f"n={u[1][1]}, every team size") for u in units(tier) if u[0] not in ("unit_lemmas", "unit_lean")}),
     )
